@@ -7,6 +7,7 @@
    oracle evaluates on the dump of every tree. *)
 From RV Require Import Model.Base Model.StylePrims Gen.LeafStyle Model.TreeValid Model.Style Proofs.Style.
 From RV Require Import Model.GeomPrims Model.ObbPrims Gen.LeafObb Model.Obb Proofs.Obb.
+From RV Require Import Model.ObbFilter Proofs.ObbFilter.
 Local Open Scope Q_scope.
 
 (* --- stroke ------------------------------------------------------------------------------- *)
@@ -263,3 +264,46 @@ Proof. vm_compute. split; reflexivity. Qed.
 Example C04_nv_radii :
   rect_radii (Fin 10) (Fin 4) (Some {| ra_number := Fin 8; ra_value := Fin 8 |}) None = Some (Fin (10 # 2), Fin (4 # 2)).
 Proof. vm_compute. reflexivity. Qed.
+
+(* === extension round 4: the regions clause through the whole filter / mask conversion ======================== *)
+(* `C04_regions` is about the constructor NonZeroRect::from_xywh.  These lift the clause to everything convert_url /
+   collect_children / mask::convert emit (Model/ObbFilter.v over the SOURCE-DERIVED leaves checked_bbox_transform,
+   prim_region_*, prim_scale, std_dev_scaled): for every filter element, every box and every primitive list, a produced
+   filter has a region with positive size, at least one primitive, every primitive sub-region has positive size and no
+   standard deviation is negative *)
+Theorem C04_filter_regions : forall f bbox r ps, filter_resolve f bbox = Some (r, ps) ->
+  (0 < rw r /\ 0 < rh r) /\ ps <> [] /\
+  Forall (fun p => (0 < rw (rp_rect p) /\ 0 < rh (rp_rect p)) /\ rparam_nonneg (rp_par p)) ps.
+Proof. exact filter_resolve_valid. Qed.
+Print Assumptions C04_filter_regions.
+
+(* ... also for what comes out of the conversion cache, for every document and every sequence of users *)
+Theorem C04_filter_users_valid : forall (taken : list N) (inD : felem -> Prop),
+  (forall f1 f2, inD f1 -> inD f2 -> fe_id f1 = fe_id f2 -> f1 = f2) ->
+  (forall f, inD f -> In (fe_id f) taken) ->
+  forall us ctr, Forall (fun p => inD (fst p)) us ->
+  forall v, In (Some v) (fst (filter_users taken us {| fs_cache := []; fs_ctr := ctr |})) ->
+    (0 < rw (fv_rect v) /\ 0 < rh (fv_rect v)) /\ fv_prims v <> [] /\
+    Forall (fun p => (0 < rw (rp_rect p) /\ 0 < rh (rp_rect p)) /\ rparam_nonneg (rp_par p)) (fv_prims v).
+Proof. exact filter_users_valid. Qed.
+Print Assumptions C04_filter_users_valid.
+
+(* every mask of every chain a user must be masked with (mask_all ones included) has a region with positive size *)
+Theorem C04_mask_regions : forall c bbox l, mask_expected c bbox = Some l ->
+  Forall (fun p => 0 < rw (fst p) /\ 0 < rh (fst p)) l.
+Proof. exact mask_expected_valid. Qed.
+Print Assumptions C04_mask_regions.
+
+Theorem C04_primitive_region_positive : forall k u x y w h bbox fr r,
+  resolve_primitive_region k u x y w h bbox fr = Some r -> 0 < rw r /\ 0 < rh r.
+Proof. exact prim_region_pos. Qed.
+Print Assumptions C04_primitive_region_positive.
+
+Example C04_nv_filter_regions :
+  exists r ps, filter_resolve {| fe_id := 2; fe_units := ObjectBoundingBox; fe_punits := ObjectBoundingBox;
+                                 fe_rect := {| rx := -(1 # 10); ry := -(1 # 10); rw := 12 # 10; rh := 12 # 10 |};
+                                 fe_prims := [ {| fp_kind := PK_Other; fp_x := None; fp_y := None; fp_w := None; fp_h := None;
+                                                  fp_par := FP_blur (Some (-(1 # 8))) (Some (1 # 8)) None |} ] |}
+                              (Some {| rx := 10; ry := 10; rw := 40; rh := 80 |}) = Some (r, ps)
+              /\ map rp_par ps = [RP_blur 0 ((1 # 8) * 80)].
+Proof. eexists. eexists. vm_compute. split; reflexivity. Qed.
